@@ -272,6 +272,7 @@ type View struct {
 	CP         map[string]uint64 // challenge pool balance of allocation id (present only)
 	ReadPools  map[string]uint64 // client -> balance (present only)
 	ReadCtr    map[string]int64  // read connection key -> counter (present only)
+	ReadTS     map[string]int64  // read connection key -> timestamp of the stored marker (workload only; no oracle reads it)
 	Assigners  map[string]*AssignerView
 	Challenges []ChallengeView // open challenges (from the allocation challenge lists), stable order
 	Conf       ConfView
@@ -359,7 +360,7 @@ func (v *Viewer) At(bc *ledger.BlockCtx) *View {
 		return v.cache
 	}
 	vw := &View{Root: root, Allocs: map[string]*AllocView{}, Blobbers: map[string]*BlobberView{}, Validators: map[string]*ValidatorView{},
-		CP: map[string]uint64{}, ReadPools: map[string]uint64{}, ReadCtr: map[string]int64{}, Assigners: map[string]*AssignerView{}}
+		CP: map[string]uint64{}, ReadPools: map[string]uint64{}, ReadCtr: map[string]int64{}, ReadTS: map[string]int64{}, Assigners: map[string]*AssignerView{}}
 	for _, id := range v.allocIDs {
 		if raw, ok := rawAt(bc, keyAlloc(id)); ok {
 			if av := decodeAlloc(raw); av != nil {
@@ -424,6 +425,7 @@ func (v *Viewer) At(bc *ledger.BlockCtx) *View {
 		if raw, ok := rawAt(bc, k); ok {
 			rm := gmap(gdecode(raw)["ReadMarker"])
 			vw.ReadCtr[k] = gi64(rm["ReadCounter"])
+			vw.ReadTS[k] = gi64(rm["Timestamp"])
 		}
 	}
 	for n := range v.assigners {
